@@ -79,6 +79,29 @@ def render(doc):
     return '\n'.join(out) + '\n'
 
 
+CANARY = """statechart:
+  name: canary
+  root state:
+    name: n1
+    initial: n2
+    states:
+      - name: n2
+        transitions:
+          - target: n3
+            event: e1
+      - name: n3
+"""
+
+
+def canary_ok():
+    """A fixed valid document imported after every other one: imports must not influence each other."""
+    try:
+        sc = import_from_yaml(CANARY)
+        return sorted(sc.states) == ['n1', 'n2', 'n3'] and len(sc.transitions) == 1 and sc.parent_for('n3') == 'n1'
+    except Exception:
+        return False
+
+
 def import_line(doc, ident):
     text = render(doc)
     outcome, struct, prios = 'ok', model_edit.struct_of(model_edit.Statechart('x'), M), []
@@ -94,7 +117,7 @@ def import_line(doc, ident):
     d['nodes'] = [dict(n, trans=n['trans'] if isinstance(n['trans'], list) else []) for n in
                   (doc['nodes'] if isinstance(doc['nodes'], list) else [])]
     return {'id': ident, 'kind': 'import', 'doc': d, 'outcome': outcome, 'struct': struct, 'prios': prios,
-            'orig': 0, 'back': 0, 'eqs': []}, text
+            'orig': 0, 'back': 0, 'eqs': [], 'canary': canary_ok()}, text
 
 
 # ------------------------------------------------------------------ C11: rich projections
@@ -141,7 +164,7 @@ def roundtrip_line(sc, ident):
     except Exception as e:
         outcome = type(e).__name__
     return {'id': ident, 'kind': 'roundtrip', 'doc': 0, 'outcome': outcome, 'struct': 0, 'prios': [],
-            'orig': orig, 'back': back, 'eqs': eqs}, text
+            'orig': orig, 'back': back, 'eqs': eqs, 'canary': canary_ok()}, text
 
 
 def special_charts(rng, count):
@@ -273,6 +296,11 @@ def main_c11(tier, seed, rng, quick, t0, replay_path):
     # (b) structure on the real code
     fam = charts + special_charts(rng, 60 if quick else 600) + gc.family_hist(rng, 20 if quick else 200)
     lines, info = [], []
+    # an earlier import in the same process of a document with a %YAML directive must not change later ones
+    try:
+        import_from_yaml('%YAML 1.1\n---\n' + CANARY)
+    except Exception:
+        pass
     pools = sorted(realize.POOLS)
     variants = ['api', 'api_edit', 'yaml', 'ryaml']
     for i, c in enumerate(fam):
